@@ -31,4 +31,9 @@ PROPERTIES = {
                     "directive handling, typename literal",
         assumptions=["rejection of corrupted payloads by the emitted annotations is pydantic's (assumed contract)"],
     ),
+    "C07": dict(
+        modules=["contracts.c07_scalars", "contracts.c05_result_fields", "contracts.c06_input_types"],
+        explanation="scalar annotation placement through the C05/C06 translator contracts, top-level variable serialisation",
+        assumptions=["pydantic runs BeforeValidator/PlainSerializer once per non-null occurrence under Optional/List (assumed)"],
+    ),
 }
